@@ -357,6 +357,7 @@ def metamorphic(ctx, case, base, H, labels=None, first_seen=None):
     if unorderable:
         ctx.stats["simpliciality-skipped:mixed-node-labels"] += 1
     failed_order = set()
+    obs0 = CM.observe(H, {n: n for n in H.nodes}, {e: e for e in H.edges}) if labels is None else {}
     for relabel in ("id",) + RELABELS:
         for nodes_first in (True, False):
             var = make_variant(rng, nodes, edges, relabel, nodes_first)
@@ -364,6 +365,12 @@ def metamorphic(ctx, case, base, H, labels=None, first_seen=None):
             if relabel == "perm" and len(edges) >= 2 and list(H2.edges) != list(range(len(edges))):
                 ctx.stats["variant:edge-id-differs-from-position"] += 1
             res = CM.evaluate(H2, inv_n, inv_e, labels=labels, skip_unorderable=unorderable)
+            if obs0:
+                for (site, label, shape, tol, _), (_, b) in zip(CM.OBS, CM.observe(H2, inv_n, inv_e).items()):
+                    if not CM.same(obs0[label], b, tol):
+                        ctx.stats["outside-statement-differs:" + label] += 1
+                        ctx.extra.setdefault("outside_statement_examples", {}).setdefault(
+                            label, {"original": case, "relabelled": variant_net(var), "detail": CM.first_diff(obs0[label], b, tol)})
             ctx.evaluations += len(res)
             ctx.stats["variant:" + relabel] += 1
             for label, b in res.items():
@@ -385,7 +392,7 @@ def metamorphic(ctx, case, base, H, labels=None, first_seen=None):
 
 
 def run_cases(ctx, cases, model=True, meta=True, labels=None, first_seen=None, dis_sites=None):
-    reqs, keep = [], []
+    reqs, keep, xreqs, xexp = [], [], [], []
     for case in cases:
         H = build_orig(case)
         idn, ide = {n: n for n in H.nodes}, {e: e for e in H.edges}
@@ -402,9 +409,23 @@ def run_cases(ctx, cases, model=True, meta=True, labels=None, first_seen=None, d
         if model:
             reqs.append(model_request(case))
             keep.append((case, H, base if labels is None else CM.evaluate(H, idn, ide)))
+            # the model's own `rename` / `reverseAll` against the harness's relabelling of the same network
+            var = make_variant(ctx.rng, nodes, [(dec_id(e), [dec_id(x) for x in ms]) for e, ms in case["edges"]], "str", True)
+            xreqs.append({"f": "rename", "net": {"nodes": case["nodes"], "edges": case["edges"]}, "pi": var["pi"], "sigma": var["sigma"]})
+            pi, sg = {json.dumps(a): b for a, b in var["pi"]}, {json.dumps(a): b for a, b in var["sigma"]}
+            xexp.append({"out": "ok", "nodes": [pi[json.dumps(n)] for n in case["nodes"]],
+                         "edges": [[sg[json.dumps(e)], [pi[json.dumps(x)] for x in ms]] for e, ms in case["edges"]]})
+            xreqs.append({"f": "reverse", "net": {"nodes": case["nodes"], "edges": case["edges"]}})
+            xexp.append({"out": "ok", "nodes": case["nodes"][::-1], "edges": [[e, ms[::-1]] for e, ms in case["edges"]][::-1]})
     if not reqs:
         return
-    resps = run_driver("C09", reqs)
+    resps = run_driver("C09", reqs + xreqs)
+    for rq, got, exp in zip(xreqs, resps[len(reqs):], xexp):
+        ctx.traces += 1
+        if got != exp:
+            dis_sites["model:" + rq["f"]] += 1
+            ctx.extra.setdefault("disagreements", []).append({"case": rq, "measure": rq["f"], "impl": repr(exp)[:300], "model": repr(got)[:300]})
+    resps = resps[:len(reqs)]
     for (case, H, base), resp in zip(keep, resps):
         if resp.get("out") == "bad-op":
             raise Infra(f"model C09 rejected request (harness defect): {json.dumps(case)[:300]}")
